@@ -34,6 +34,7 @@ fn main() {
     let mut quiet = false;
     let mut level2 = cfg!(feature = "shuttle");
     let mut runs = None;
+    let mut no_evidence = false;
     let mut positional = vec![];
     let mut i = 2;
     while i < args.len() {
@@ -46,6 +47,7 @@ fn main() {
             "--histories" => { histories = Some(args[i + 1].parse().unwrap()); i += 1; }
             "--quiet" => quiet = true,
             "--level2" => level2 = true,
+            "--no-evidence" => no_evidence = true,
             "--runs" => { runs = Some(args[i + 1].parse().unwrap()); i += 1; }
             other => positional.push(other.to_string()),
         }
@@ -53,7 +55,7 @@ fn main() {
     }
     let projects_dir = simcore::verif_root().join("workloads/projects");
     let code = match cmd {
-        "c13" => c13::run(c13::Opts { tier, workers, budget_s, log, only, histories }, project::Project::load_all(&projects_dir)),
+        "c13" => c13::run(c13::Opts { tier, workers, budget_s, log, only, histories, no_evidence }, project::Project::load_all(&projects_dir)),
         "c12" => {
             if level2 != cfg!(feature = "shuttle") {
                 harness_error("level 2 needs the shuttle build of simdb (target-shuttle), level 1 the plain build");
@@ -63,7 +65,9 @@ fn main() {
             if let Some(p) = &log {
                 std::fs::write(p, s.log.join("\n") + "\n").unwrap_or_else(|e| harness_error(&format!("log: {e}")));
             }
-            c12::write_summary(&s, level2);
+            if !no_evidence {
+                c12::write_summary(&s, level2);
+            }
             s.exit
         }
         "c12-exec" => c12::exec_child(),
